@@ -1913,6 +1913,10 @@ func (p *balloons) allocMem(c cache.Container, mems idset.IDSet, types libmem.Ty
 
 	for oID, oz := range updates {
 		if oc, ok := p.cch.LookupContainer(oID); ok {
+			if oc.PreserveMemoryResources() {
+				log.Debug("  - preserving %s pinning to memory %q", oc.PrettyName(), oc.GetCpusetMems())
+				continue
+			}
 			oc.SetCpusetMems(oz.MemsetString())
 		}
 	}
